@@ -58,6 +58,7 @@ type Contract struct {
 	Pos      string
 	NoInline bool
 	Lock     string // informational
+	AssumePre []string // labels of callee preconditions that are environment assumptions in this function (e.g. conformant traffic)
 	SortLen  int    // sortlen 3: sort.Sort calls in this function sort exactly three elements (checked)
 }
 
@@ -114,7 +115,7 @@ type ContractTable struct {
 	FuncType map[string]*Contract // named function type -> assumed contract of every value of that type
 }
 
-var kwRe = regexp.MustCompile(`^(func|trusted func|iface|pure func|hfunc|ufunc|axiom|requires|ensures|assumes|modifies|loop|invariant|safety|let|letold|noinline|params|lock|sortlen|static|functype)\b`)
+var kwRe = regexp.MustCompile(`^(func|trusted func|iface|pure func|hfunc|ufunc|axiom|requires|ensures|assumes|modifies|loop|invariant|safety|let|letold|noinline|params|lock|sortlen|static|functype|assumepre)\b`)
 var tagRe = regexp.MustCompile(`^\[([A-Za-z0-9_,.\- ]+)\]\s*`)
 
 type rawLine struct {
@@ -263,6 +264,11 @@ func (p *Program) parseContractFile(pkg *packages.Package, file string) error {
 		case "lock":
 			if cur != nil {
 				cur.Lock = rest
+			}
+		case "assumepre":
+			if cur != nil {
+				cur.AssumePre = append(cur.AssumePre, strings.Fields(rest)...)
+				ct.Assumed = append(ct.Assumed, fmt.Sprintf("%s: in %s the callee precondition(s) %s are assumed (environment: protocol-conformant traffic), not checked", st.pos, cur.Name, rest))
 			}
 		case "sortlen":
 			if cur != nil {
